@@ -34,8 +34,11 @@ func (r *recordingConverter) StringToString(value string) string {
 }
 func (r *recordingConverter) Dump() (string, error) { r.log("Dump"); return r.inner.Dump() }
 func (r *recordingConverter) Extension() string     { return r.inner.Extension() }
-func (r *recordingConverter) ProgramStart() error   { r.log("ProgramStart"); return r.inner.ProgramStart() }
-func (r *recordingConverter) ProgramEnd() error     { r.log("ProgramEnd"); return r.inner.ProgramEnd() }
+func (r *recordingConverter) ProgramStart() error {
+	r.log("ProgramStart")
+	return r.inner.ProgramStart()
+}
+func (r *recordingConverter) ProgramEnd() error { r.log("ProgramEnd"); return r.inner.ProgramEnd() }
 func (r *recordingConverter) VarDefinition(name string, value string, global bool) error {
 	r.log("VarDefinition", name, value, global)
 	return r.inner.VarDefinition(name, value, global)
@@ -93,7 +96,10 @@ func (r *recordingConverter) Print(value []string) error {
 	r.log("Print", value)
 	return r.inner.Print(value)
 }
-func (r *recordingConverter) Panic(value string) error { r.log("Panic", value); return r.inner.Panic(value) }
+func (r *recordingConverter) Panic(value string) error {
+	r.log("Panic", value)
+	return r.inner.Panic(value)
+}
 func (r *recordingConverter) WriteFile(path string, content string, append string) error {
 	r.log("WriteFile", path, content, append)
 	return r.inner.WriteFile(path, content, append)
